@@ -37,8 +37,40 @@ def run_case(case, kind):
         shutil.rmtree(d, ignore_errors=True)
 
 
+def run_patch(name, path):
+    """A behaviour-preserving refactoring delivered as patch.diff: every check must stay silent."""
+    d = tempfile.mkdtemp(prefix="vself-")
+    try:
+        dst = os.path.join(d, "repo")
+        shutil.copytree(F.REPO, dst, ignore=shutil.ignore_patterns("target", ".git", "website"))
+        subprocess.run(["git", "init", "-q"], cwd=dst)
+        p = subprocess.run(["git", "apply", "--whitespace=nowarn", path], cwd=dst, capture_output=True, text=True)
+        if p.returncode != 0:
+            return dict(name=name, kind="benign", status="SKIPPED", detail="patch no longer applies")
+        env = dict(os.environ, VERIF_REPO=dst, VERIF_EVID=os.path.join(d, "evid"))
+        p = subprocess.run([os.path.join(F.VERIF, "check"), "all"], env=env, capture_output=True, text=True)
+        fired = sorted({ln[len("  violated: ") :].split(" : ")[0] + "@" + ln[len("  violated: ") :].split(" : ")[1] for ln in p.stdout.split("\n") if ln.startswith("  violated: ")})
+        return dict(name=name, kind="benign", status="ok" if not fired else "FALSE-ALARM", fired=fired)
+    finally:
+        shutil.rmtree(d, ignore_errors=True)
+
+
 def main(argv):
     cases = json.load(open(CASES))
+    if argv and argv[0] == "patches":
+        import glob
+
+        sel = argv[1:]
+        jobs = [(os.path.basename(os.path.dirname(p)), p) for p in sorted(glob.glob(os.path.join(F.VERIF, "selftest", "benign", "*", "patch.diff")))]
+        jobs = [j for j in jobs if not sel or any(s in j[0] for s in sel)]
+        with ThreadPoolExecutor(max_workers=6) as ex:
+            results = list(ex.map(lambda j: run_patch(*j), jobs))
+        bad = 0
+        for r in results:
+            print("%-12s %-8s %s" % (r["status"], r["name"], "; ".join(r.get("fired", [])) if r["status"] != "SKIPPED" else r["detail"]))
+            bad += r["status"] == "FALSE-ALARM"
+        print("selftest patches: %d refactorings, %d false alarms" % (len(results), bad))
+        return 1 if bad else 0
     sel = [a for a in argv if not a.startswith("-")]
     jobs = []
     for c in cases["mutants"]:
